@@ -364,6 +364,39 @@ theorem C09_route_sugar (matchPat : Matcher Pat) (req : Req) (pat : Pat) (r : Ro
   · intro hg len caps hm
     exact hg hm.2
 
+/-- **C09_dfs_first**: "searching depth-first in registration order".  When a handler answers, the
+route that answers is the *first*, in depth-first registration order (lexicographic order on
+the index path `resource_path ++ [route position]`), among all routes of the table that are
+reachable through services whose patterns match successively and whose guards — on every level
+and on the route itself — accept (`Chain`: no first-match requirement).  (The converse needs
+commitment: see the example after `exApp`, where such a chain exists but an earlier-registered
+scope has committed and answers with its default.) -/
+theorem C09_dfs_first (matchPat : Matcher Pat) (app : App Pat) (req : Req)
+    (steps : List (Step Pat)) (st' : St) (h : ChosenPath matchPat app req steps st')
+    (s : Step Pat) (pat : Pat) (gs : List Guard) (data : Option Nat) (routes : List Route)
+    (dflt : Option Nat) (k : Nat)
+    (hl : steps.getLast? = some s) (hs : s.node = .resource pat gs data routes dflt)
+    (hk : firstRouteIdx req routes 0 = some k)
+    (c : List (Step Pat)) (st₂ : St) (t : Step Pat) (pat' : Pat) (gs' : List Guard)
+    (data' : Option Nat) (routes' : List Route) (dflt' : Option Nat) (j : Nat) (r : Route)
+    (hc : Chain matchPat req app.children (St.init app) c st₂)
+    (hcl : c.getLast? = some t) (ht : t.node = .resource pat' gs' data' routes' dflt')
+    (hj : routes'[j]? = some r) (hr : GuardsOk req r.guards) :
+    LexLe (steps.map (·.idx) ++ [k]) (c.map (·.idx) ++ [j]) :=
+  walk_dfs_minimal h.1 hc hl hcl hs ht hk hj hr
+
+/-- … and that first position is where the answering handler is registered -/
+theorem C09_dfs_first_handler (matchPat : Matcher Pat) (app : App Pat) (req : Req)
+    (steps : List (Step Pat)) (st' : St) (h : ChosenPath matchPat app req steps st')
+    (s : Step Pat) (pat : Pat) (gs : List Guard) (data : Option Nat) (routes : List Route)
+    (dflt : Option Nat) (k : Nat)
+    (hl : steps.getLast? = some s) (hs : s.node = .resource pat gs data routes dflt)
+    (hk : firstRouteIdx req routes 0 = some k) :
+    ∃ r, routes[k]? = some r ∧ (routeApp matchPat app req).target = .handler r.handler := by
+  obtain ⟨r, hr, _, _, hf⟩ := firstRouteIdx_spec hk
+  refine ⟨r, by simpa using hr, ?_⟩
+  exact (C09_handler matchPat app req steps st' h r.handler).2 ⟨s, pat, gs, data, routes, dflt, hl, hs, hf⟩
+
 /-! ## segment boundaries -/
 
 /-- **C09_segment_boundary**: for every matcher whose prefix mode ends at a segment boundary
@@ -477,6 +510,12 @@ example : matchInfo (exReq "POST" ['/', 'a', '/', 'b', '/', 'x', '%', '2', 'F', 
 inner scope has no default, the enclosing scope's one answers, with the scope's data -/
 example : routeApp miniMatch exApp (exReq "GET" ['/', 'a', '/', 'b', '/', 'x', '/', 'y']) =
     ⟨.dflt 7, ⟨4, [], [1, 2], [0, 0]⟩⟩ := by decide +kernel
+/-- … although a chain of matching services to the tail resource's route exists for that request
+(commitment: "first registered match" is decided level by level) -/
+example : ∃ c st₂ t, Chain miniMatch (exReq "GET" ['/', 'a', '/', 'b', '/', 'x', '/', 'y']) exApp.children
+    (St.init exApp) c st₂ ∧ c.getLast? = some t ∧ t.idx = 1 ∧ t.node.isPrefix = false := by
+  refine ⟨[⟨.resource [[.lit ['/'], .rest "t"]] [] none [⟨[], 3⟩] none, 1, 8, [("t", 1, 8)]⟩], _,
+    _, Chain.cons _ rfl ⟨by decide +kernel, by intro g hg; cases hg⟩ Chain.nil, rfl, rfl, rfl⟩
 /-- `PUT /a/b/x`: 405 — matched resource, no route for the method, no registered resource default -/
 example : (routeApp miniMatch exApp (exReq "PUT" ['/', 'a', '/', 'b', '/', 'x'])).target = .notAllowed := by
   decide +kernel
